@@ -123,6 +123,12 @@ class Property:
     def has_model(self, case):
         return True
 
+    def model_input(self, case, obs):
+        """What is sent to the Lean driver for this case (default: the case itself).  May add state
+        observed on the real implementation (e.g. an element's extracted state, tables computed from
+        real scalars in isolation) when the model takes it as an input rather than recomputing it."""
+        return case
+
 
 # --------------------------------------------------------------------------------------
 # build / audit
@@ -366,7 +372,8 @@ def run_model_many(prop, cases):
             p = subprocess.run(cmd, cwd=LEAN, stdin=fin, stdout=subprocess.PIPE, stderr=subprocess.PIPE, timeout=3600)
     finally:
         os.remove(inp)
-    lines = p.stdout.decode("utf-8", "replace").splitlines()
+    # split on '\n' only: str.splitlines() would also break at U+0085/U+2028/\x1c.. inside JSON strings
+    lines = [l for l in p.stdout.decode("utf-8", "replace").split("\n") if l != ""]
     outs = []
     for l in lines:
         try:
@@ -378,16 +385,17 @@ def run_model_many(prop, cases):
     return outs
 
 
-def shrink(prop, case, still_fails, budget=400):
-    """Greedy delta: keep taking the first smaller variant that still fails."""
+def shrink(prop, case, still_fails, budget=400, seconds=40):
+    """Greedy delta: keep taking the first smaller variant that still fails (bounded in steps and time)."""
     cur = case
     steps = 0
     improved = True
-    while improved and steps < budget:
+    deadline = time.time() + seconds
+    while improved and steps < budget and time.time() < deadline:
         improved = False
         for cand in prop.shrink_candidates(cur):
             steps += 1
-            if steps > budget:
+            if steps > budget or time.time() > deadline:
                 break
             try:
                 if still_fails(cand):
@@ -484,7 +492,7 @@ def run_check(pid, tier, seed):
     model_idx = [i for i, c in enumerate(cases) if prop.has_model(c)]
     model = {}
     if b.driver_ok:
-        outs = run_model_many(prop, [cases[i] for i in model_idx])
+        outs = run_model_many(prop, [prop.model_input(cases[i], impl[i]["obs"]) for i in model_idx])
         model = dict(zip(model_idx, outs))
     t_model = time.time()
 
@@ -521,7 +529,7 @@ def run_check(pid, tier, seed):
     reported = set()
     for i, fail in unknown_failures:
         key = fail.get("clause", "?")
-        if key in reported:
+        if key in reported or len(reported) >= 3:
             continue
         reported.add(key)
         small = shrink(prop, cases[i], oracle_fails)
@@ -554,7 +562,7 @@ def run_check(pid, tier, seed):
             r = _worker_run(case)
             if r["err"]:
                 return False
-            m = run_model_many(prop, [case])[0]
+            m = run_model_many(prop, [prop.model_input(case, r["obs"])])[0]
             return prop.compare(r["obs"], m) is not None
 
         shrunk_dis = []
@@ -562,7 +570,7 @@ def run_check(pid, tier, seed):
             small = shrink(prop, cases[i], disagrees, budget=150) if b.driver_ok else cases[i]
             _worker_init(pid)
             r = _worker_run(small)
-            m = run_model_many(prop, [small])[0] if b.driver_ok else None
+            m = run_model_many(prop, [prop.model_input(small, r["obs"])])[0] if b.driver_ok else None
             shrunk_dis.append({"case": small, "impl": r["obs"], "model": m, "diff": prop.compare(r["obs"], m) if m else d, "original_diff": d})
             tried += 1
             bad = [f for f in r["oracle"] if prop.classify(small, f) not in finding_ids]
@@ -692,7 +700,7 @@ def replay(pid, path):
         return 1
     _worker_init(pid)
     r = _worker_run(case)
-    m = run_model_many(prop, [case])[0] if os.path.exists(DRIVER) and prop.has_model(case) else None
+    m = run_model_many(prop, [prop.model_input(case, r["obs"])])[0] if os.path.exists(DRIVER) and prop.has_model(case) else None
     print("case:", canon(case))
     print("implementation:", canon(r["obs"]))
     print("model:", canon(m))
